@@ -270,3 +270,47 @@ def _guard_tuple(g):
 
 def _lab(s: str) -> str:
     return "".join(ch if ch.isalnum() else "_" for ch in s)[:60].strip("_")
+
+
+def function_env(fnode) -> Dict[str, object]:
+    """Function-level abbreviations: names bound exactly once in the whole function by a plain assignment outside any loop."""
+    top = [st for st in fnode.body]
+    env = _single_assignments(top, exclude=set(a.arg for a in fnode.args.args))
+    inside = set()
+    for lp in loops_of(fnode):
+        for n in ast.walk(lp):
+            if isinstance(n, ast.Name) and isinstance(n.ctx, ast.Store):
+                inside.add(n.id)
+    return {k: v for k, v in env.items() if k not in inside and not isinstance(v, (ast.Dict, ast.List, ast.Set, ast.Constant))}
+
+
+def writer_for(tree, qual: str, iter_expected: str, row_expr: str = "row_index") -> Tuple[Optional[ast.FunctionDef], Optional[Writer]]:
+    f = func_node(tree, qual)
+    if f is None:
+        return None, None
+    env = function_env(f)
+    for lp in loops_of(f):
+        if norm_expr(lp.iter, env) == iter_expected:
+            return f, Writer(f, lp, row_expr=row_expr, outer_env=env)
+    return f, None
+
+
+def header_list(fnode, attr: str) -> Optional[List[str]]:
+    """English msgids of `self.<attr> = [ _("..."), "", _("{} x").format(...) ... ]` inside a function (None if another shape)."""
+    for n in ast.walk(fnode):
+        tgt = n.target if isinstance(n, ast.AnnAssign) else (n.targets[0] if isinstance(n, ast.Assign) and len(n.targets) == 1 else None)
+        if tgt is not None and isinstance(tgt, ast.Attribute) and tgt.attr == attr and isinstance(n.value, ast.List):
+            out = []
+            for e in n.value.elts:
+                if isinstance(e, ast.Constant):
+                    out.append(e.value)
+                    continue
+                c = e
+                if isinstance(c, ast.Call) and isinstance(c.func, ast.Attribute) and c.func.attr == "format":
+                    c = c.func.value
+                if isinstance(c, ast.Call) and dotted(c.func) == "_" and c.args and isinstance(c.args[0], ast.Constant):
+                    out.append(c.args[0].value)
+                else:
+                    return None
+            return out
+    return None
